@@ -497,7 +497,8 @@ class Vector():
 		"""
 		# (an untyped empty vector has no dtype to make non-nullable)
 		return Vector(tuple(elem for elem in self._underlying if elem is not None),
-			dtype=self._dtype.with_nullable(False) if self._dtype is not None else None)
+			dtype=self._dtype.with_nullable(False) if self._dtype is not None else None,
+			name=self._name, as_row=self._display_as_row)
 
 	def isna(self):
 		"""
